@@ -28,7 +28,7 @@ for p in props:
         technique=meta["technique"]))
 man = dict(
     version=1,
-    setup_cmd="cd /verif && /venv/bin/python -c \"import sys; sys.path.insert(0,'/verif'); from harness import proofs; ok,log,s=proofs.ensure_built(clean=True); print(log[-3000:]); sys.exit(0 if ok else 1)\"",
+    setup_cmd="cd /verif && /venv/bin/python -c \"import sys; sys.path.insert(0,'/verif'); from harness import proofs; sys.exit(proofs.setup_build())\"",
     hooks=dict(guard="MYSTIC_VERIF", enable="export MYSTIC_VERIF=1 (set by ./check; no source hooks are needed: every observation is made from outside)",
                baseline_off_cmd="cd /repo && env -u MYSTIC_VERIF /venv/bin/python -m pytest -ra -q -p no:cacheprovider --timeout=900 --continue-on-collection-errors",
                source_commits=[], add_only=True),
